@@ -173,8 +173,7 @@ def empty_arr(elem_shape):
     """Canonical array under an empty list: the constant array of a per-sort default."""
     k = elem_shape.key()
     if k not in _empty_arr:
-        d = z3.Const('dflt_' + T._san(k), elem_shape.sort())
-        _empty_arr[k] = z3.K(T.IntS, d)
+        _empty_arr[k] = z3.Const('emptyarr_' + T._san(k), z3.ArraySort(T.IntS, elem_shape.sort()))
     return _empty_arr[k]
 
 
@@ -304,7 +303,8 @@ class Case:
 
 
 class LoopSpec:
-    def __init__(self, inv, fingerprint=None, shapes=None, unroll=False, extra_writes=()):
+    def __init__(self, inv, fingerprint=None, shapes=None, unroll=False, extra_writes=(), hints=None):
+        self.hints = hints              # (L) -> instances of separately proved lemma schemas, assumed at the head
         self.inv = inv                  # (L) -> list[(name, z3 Bool)]
         self.fingerprint = fingerprint  # substring of the loop header source
         self.shapes = shapes or {}      # declared shapes for variables havocked at the head
@@ -349,7 +349,9 @@ class Contract:
         self.note = note
         self.call_writes = {}
         self.call_hook = None
+        self.volatile = {}        # field name -> reader(eng, st, obj): fields written by another thread
         self.variants = None      # list of {param: Shape | PNone()} overrides; verified once per variant
+        self.assumed_ensures = None   # (ctx) -> clauses assumed at call sites but NOT proved of the body (listed as assumptions)
         self.post_hints = None    # (ctx) -> extra premises (instances of separately proved lemmas)
         self.defaults = {}
         Contract.registry[qualname] = self
@@ -762,6 +764,14 @@ class Engine:
         sol.add(*st.pc)
         return sol.check() != z3.unsat
 
+    def st_With(self, s, st):
+        """with EXPR as NAME: body  -- the context manager's __exit__ is not modelled (files)."""
+        for item in s.items:
+            v = self.eval(item.context_expr, st)
+            if item.optional_vars is not None:
+                self.assign(item.optional_vars, v, st)
+        return self.exec_block(s.body, st)
+
     def st_Try(self, s, st):
         if s.finalbody:
             raise Unsupported('try/finally')
@@ -782,7 +792,9 @@ class Engine:
                     names = [h.type.id]
                 elif isinstance(h.type, ast.Tuple):
                     names = [e.id for e in h.type.elts]
-                if '*' in names or payload in names or 'Exception' in names:
+                alias = {'IOError': 'OSError', 'EnvironmentError': 'OSError'}
+                names = [alias.get(x, x) for x in names]
+                if '*' in names or alias.get(payload, payload) in names or 'Exception' in names:
                     handled = True
                     outs.extend(self.exec_block(h.body, s2))
                     break
@@ -862,30 +874,48 @@ class Engine:
             raise Unsupported('%s: loop at line %d has no invariant in the sidecar' % (fc.qualname, s.lineno))
         return self._loop_cut(s, st, spec, kind='while')
 
-    def _written(self, body):
-        """root variable -> None (whole variable) | set of object fields written in body."""
-        res = {}
+    def _written(self, body, st=None):
+        """set of access paths (root, field, field, ...) written in body (over-approximation)."""
+        res = set()
 
-        def note(t):
-            # self.x = ..., self.x.append(...), self.x[...] = ...   -> field x of self
+        def path_of(t):
+            attrs = []
             cur = t
-            chain = []
             while isinstance(cur, (ast.Subscript, ast.Attribute, ast.Starred)):
-                chain.append(cur)
+                if isinstance(cur, ast.Attribute):
+                    attrs.append(cur.attr)
+                else:
+                    attrs = []          # a[i].x = ...  writes (an element of) a
                 cur = cur.value
             if isinstance(cur, ast.Name):
-                fld = None
-                if chain and isinstance(chain[-1], ast.Attribute):
-                    fld = chain[-1].attr
-                if fld is None:
-                    res[cur.id] = None
-                elif cur.id not in res:
-                    res[cur.id] = {fld}
-                elif res[cur.id] is not None:
-                    res[cur.id].add(fld)
-            elif isinstance(cur, (ast.Tuple, ast.List)):
-                for e in cur.elts:
+                return (cur.id,) + tuple(reversed(attrs))
+            return None
+
+        def note(t):
+            if isinstance(t, (ast.Tuple, ast.List)):
+                for e in t.elts:
                     note(e)
+                return
+            p = path_of(t)
+            if p is not None:
+                res.add(p)
+
+        def receiver_contract(call):
+            q = self.cur.resolve_call_name(call)
+            if q is not None and q in Contract.registry:
+                return Contract.registry[q]
+            f = call.func
+            if isinstance(f, ast.Attribute) and st is not None:
+                try:
+                    probe = st.fork()
+                    mark = len(self.vcs)
+                    obj = self.eval(f.value, probe)
+                    del self.vcs[mark:]
+                except Exception:
+                    return None
+                if isinstance(obj, PObj):
+                    return Contract.registry.get('%s.%s' % (obj.cls, f.attr))
+            return None
 
         for n in ast.walk(ast.Module(body=body, type_ignores=[])):
             if isinstance(n, ast.Assign):
@@ -895,46 +925,51 @@ class Engine:
                 note(n.target)
             elif isinstance(n, ast.For):
                 note(n.target)
+            elif isinstance(n, ast.withitem) and n.optional_vars is not None:
+                note(n.optional_vars)
             elif isinstance(n, ast.Delete):
                 for t in n.targets:
                     note(t)
             elif isinstance(n, ast.Call):
                 if isinstance(n.func, ast.Attribute) and n.func.attr in (
-                        'append', 'extend', 'insert', 'pop', 'remove', 'clear', 'update', 'sort'):
+                        'append', 'extend', 'insert', 'pop', 'remove', 'clear', 'update', 'sort', 'set'):
                     note(n.func.value)
-                q = self.cur.resolve_call_name(n)
-                if q is not None and q in Contract.registry:
-                    con = Contract.registry[q]
+                if isinstance(n.func, ast.Attribute) and ast.unparse(n.func) in ('heapq.heappush', 'heapq.heappop') and n.args:
+                    note(n.args[0])
+                con = receiver_contract(n)
+                if con is not None:
                     pnames = [p for p in con.params if p != 'self' and not p.startswith('$')]
                     for pi, p in enumerate(pnames):
                         if p in con.mutates and pi < len(n.args):
                             note(n.args[pi])
+                    for k in n.keywords:
+                        if k.arg in con.mutates:
+                            note(k.value)
                     for p in con.params:
                         if p.startswith('$'):
-                            res[p] = None
+                            res.add((p,))
                     if 'self' in con.params and con.self_modifies and isinstance(n.func, ast.Attribute):
                         for fld in con.self_modifies:
                             note(ast.Attribute(value=n.func.value, attr=fld, ctx=ast.Load()))
                 for h in self.cur.con.call_writes.get(getattr(n.func, 'attr', getattr(n.func, 'id', None)), ()):
                     if h.startswith('$'):
-                        res[h] = None
+                        res.add((h,))
                     else:
                         note(ast.parse(h, mode='eval').body)
         return res
 
     def _havoc(self, st, writes, spec, tag):
-        for nm in sorted(writes):
-            flds = writes[nm]
-            if flds is not None and nm in st.env and isinstance(st.env[nm], PObj):
-                obj = st.env[nm]
-                for f in sorted(flds):
-                    if f in obj.fields:
-                        nv = fresh(shape_of(obj.fields[f]), '%s.%s@%s' % (nm, f, tag))
-                        for b in wf_vals(nv):
-                            st.assume(b)
-                        obj = obj.with_field(f, nv)
-                st.env[nm] = obj
+        paths = sorted(writes, key=len)
+        done = []
+        for p in paths:
+            if any(p[:len(d)] == d for d in done):
                 continue
+            done.append(p)
+            root = p[0]
+            if len(p) > 1 and root in st.env and isinstance(st.env[root], PObj):
+                st.env[root] = self._havoc_path(st, st.env[root], p[1:], '%s@%s' % ('.'.join(p), tag))
+                continue
+            nm = root
             if nm in spec.shapes:
                 st.env[nm] = fresh(spec.shapes[nm], nm + '@' + tag)
             elif nm in st.env:
@@ -951,13 +986,29 @@ class Engine:
             for b in wf_vals(st.env[nm]):
                 st.assume(b)
 
+    def _havoc_path(self, st, obj, fields, hint):
+        f = fields[0]
+        if f not in obj.fields:
+            return obj      # attribute created inside the loop
+        cur = obj.fields[f]
+        if len(fields) > 1 and isinstance(cur, PObj):
+            return obj.with_field(f, self._havoc_path(st, cur, fields[1:], hint))
+        try:
+            nv = fresh(shape_of(cur), hint)
+        except Unsupported:
+            nv = Undefined(hint)
+            return obj.with_field(f, nv)
+        for b in wf_vals(nv):
+            st.assume(b)
+        return obj.with_field(f, nv)
+
     def _loop_cut(self, s, st, spec, kind, seq=None, lo=None, hi=None, idx_target=None, val_target=None, mode=None):
         fc = self.cur
         lid = fc.loop_id(s)
         pre_env = dict(st.env)
-        writes = self._written(s.body)
+        writes = self._written(s.body, st)
         for w in spec.extra_writes:
-            writes[w] = None
+            writes.add((w,))
         gi = None
         outs = []
 
@@ -980,6 +1031,9 @@ class Engine:
             head.assume(z3.And(lo <= gi, gi <= z3.If(hi >= lo, hi, lo)))
         for nm, b in invs(head, gi):
             head.assume(b)
+        if spec.hints is not None:
+            for h in spec.hints(LoopCtx(head.env, pre_env, fc.entry, gi, seq, self)):
+                head.assume(h)
         # 3a. exit arm
         ex = head.fork()
         if kind == 'for':
@@ -1135,6 +1189,9 @@ class Engine:
     def ev_Attribute(self, e, st):
         obj = self.eval(e.value, st)
         if isinstance(obj, PObj):
+            vol = getattr(self.cur.con, 'volatile', None)
+            if vol and e.attr in vol and isinstance(e.ctx, ast.Load):
+                return vol[e.attr](self, st, obj)
             if e.attr in obj.fields:
                 return obj.fields[e.attr]
             return PFun('method', (obj, e.attr, e.value))
@@ -1337,12 +1394,18 @@ class Engine:
             return z3.IntVal(ord(lv[i.as_long()]))
         return T.sch(s, i)
 
-    def norm_index(self, v, n, default):
-        """Python slice bound -> clamped z3 Int."""
+    def norm_index(self, v, n, default, st=None):
+        """Python slice bound -> clamped z3 Int (named by a fresh constant when it is a
+        conditional term, so that it can occur inside quantifier patterns)."""
         if v is None or isinstance(v, PNone):
             return default
         t = self.as_int(v)
-        return simp(z3.If(t < 0, z3.If(t + n < 0, z3.IntVal(0), t + n), z3.If(t > n, n, t)))
+        r = simp(z3.If(t < 0, z3.If(t + n < 0, z3.IntVal(0), t + n), z3.If(t > n, n, t)))
+        if st is not None and _has_ite(r):
+            k = z3.Int(fresh_name('idx'))
+            st.assume(k == r)
+            return k
+        return r
 
     def getslice(self, c, sl, st, node):
         if sl.step is not None:
@@ -1361,16 +1424,25 @@ class Engine:
             if c.pyval is not None and all(x is None or (isinstance(x, ZV) and x.pyval is not None) for x in (lo_v, hi_v)):
                 return zstr(c.pyval[(lo_v.pyval if lo_v is not None else None):(hi_v.pyval if hi_v is not None else None)])
             n = self.length(c, st)
-            lo = self.norm_index(lo_v, n, z3.IntVal(0))
-            hi = self.norm_index(hi_v, n, n)
-            hi = simp(z3.If(hi < lo, lo, hi))
-            return ZV(TStr, self.mk_slice(c.term, lo, hi))
+            lo = self.norm_index(lo_v, n, z3.IntVal(0), st)
+            hi = self.norm_index(hi_v, n, n, st)
+            hi2 = simp(z3.If(hi < lo, lo, hi))
+            if _has_ite(hi2):
+                k = z3.Int(fresh_name('idx'))
+                st.assume(k == hi2)
+                hi2 = k
+            return ZV(TStr, self.mk_slice(c.term, lo, hi2))
         if isinstance(c, ZV) and isinstance(c.shape, TList):
             sh = c.shape
             n = sh.len(c.term)
-            lo = self.norm_index(lo_v, n, z3.IntVal(0))
-            hi = self.norm_index(hi_v, n, n)
-            hi = simp(z3.If(hi < lo, lo, hi))
+            lo = self.norm_index(lo_v, n, z3.IntVal(0), st)
+            hi = self.norm_index(hi_v, n, n, st)
+            hi2 = simp(z3.If(hi < lo, lo, hi))
+            if _has_ite(hi2):
+                k = z3.Int(fresh_name('idx'))
+                st.assume(k == hi2)
+                hi2 = k
+            hi = hi2
             # a fresh list whose elements are those of the slice (pointwise, quantified)
             res = T.list_fn('lslice', sh, [T.IntS, T.IntS])(c.term, lo, hi)
             j = z3.Int('j!s')
@@ -1662,6 +1734,22 @@ class Engine:
                     conj.append(self.char_at(x.term, z3.IntVal(i)) == ord(ch))
                 return z3.And(conj)
         return a.term == b.term
+
+
+def _has_ite(t):
+    stack = [t]
+    seen = set()
+    while stack:
+        t = stack.pop()
+        if t.get_id() in seen:
+            continue
+        seen.add(t.get_id())
+        if z3.is_app(t):
+            if t.decl().kind() == z3.Z3_OP_ITE:
+                return True
+            for i in range(t.num_args()):
+                stack.append(t.arg(i))
+    return False
 
 
 class Undefined(Val):
